@@ -8,6 +8,14 @@ CHECKS = {
    technique="bounded-exhaustive enumeration of single copies + explicit-state BFS over operation histories on the real BitBuffer/Bits, compared step by step with a Vec<bool> model",
    text="Every (direction, entry point, source bytes, source bit offset, destination bytes, destination bit position, length) for buffers up to 4 (quick) / 5 (thorough) bytes is executed on the real slice-tuple BitRead/BitWrite impls; every operation history up to the stated depth over a 37-operation alphabet is executed on the real BitBuffer (and, to a fixpoint, on the Bits read view) with exact state deduplication; each step is compared with a bit-vector model (copied bits, untouched neighbours, cursor, Err instead of panic, growth invariant). Inside the bound the claim is complete; beyond it nothing is claimed.",
    note="Trusted: the Vec<bool> model in vcore::refbits (60 lines); BitBuffer's read position is observed through its Debug output."),
+ "C10": dict(engine="e_prim", category="model_checking", design="5/C10",
+   technique="bounded-exhaustive enumeration of primitive calls (lb, ub, value/size) on the real PackedWrite/PackedRead, each compared with an independent X.691 reference encoder and read back; swept in worker processes with crash attribution",
+   text="Every (lower bound, upper bound, value) with lb in [-40,40] and range <= 300 (thorough; [-8,8] x 64 quick) plus boundary families around every 2^k up to the i64/u64 extremes, every length 0..70000 and the stated constraint grid, every enumeration/choice index for 0..300 root items, and octet/bit strings of every fragment-count class up to 200000 items under nine constraint forms is executed once on the real primitives: bits == refper, the matching read returns the value and consumes exactly the written bits (from the produced and from the reference bits), an exactly-sized slice writer gives the same bits, a one-byte-short one an Err, inadmissible arguments an Err and never a panic/abort/wrapped value.",
+   note="Trusted: refper primitives (vcore::refper, ~150 lines for this part) written from X.691 10.3-10.9/11.x, 14, 16, 17; known finding KF-C10-1 is matched by an executable quirk model, anything else inside that class is still a violation."),
+ "C20": dict(engine="e_prim", category="exploration", design="5/C20",
+   technique="bounded-exhaustive enumeration of DER primitive values, write then read on the real code, identity + exact consumption oracle",
+   text="Every length 0..300, +-2 (quick) / +-300 (thorough) around every 2^(7k), 2^(8k) and u64::MAX; every tag of 4 classes x numbers 0..30 as raw identifier and as the tag of a BOOLEAN and an INTEGER TLV; all 8 Rust integer types at their boundary families; BOOLEAN with the value octet set to every 0..255; every index of ENUMERATED types with 1..70000 items: written with the real DER writer, read with the real DER reader from the exact buffer and from the buffer followed by 3 sentinel bytes. Exhaustive inside these sets.",
+   note="Oracle is identity + exact byte consumption as the statement says; minimal/canonical DER form is not demanded (the writer's INTEGER content is not minimal two's complement - outside the statement)."),
 }
 
 NOT_YET = {
